@@ -407,6 +407,71 @@ def wrappers_and_format(chk, facts):
     chk.ob(rule, "format", okc and txt, "ffi::format formats the call's own policy_text (%s) with the call's own line_width / indent_width (%s)" % (txt, okc), where=f.where(), fn=f.name)
 
 
+RESIDUAL_FIELDS = {"decision": "decision", "satisfied": "definitely_satisfied", "errored": "definitely_errored", "may_be_determining": "may_be_determining",
+                   "must_be_determining": "must_be_determining", "nontrivial_residuals": "nontrivial_residuals", "residuals": "all_residuals"}
+DELEGATES = ("decision", "definitely_satisfied", "definitely_errored", "may_be_determining", "must_be_determining", "nontrivial_residuals", "all_residuals")
+
+
+def residual_hom(chk, facts):
+    """Partial authorization through the FFI: every field of the FFI's ResidualResponse is filled from the PartialResponse
+    accessor it is named after, the FFI getters read the field they are named after, and the API's PartialResponse accessors
+    delegate to the core accessor of the same name."""
+    rule = "C19.HOM.residual"
+    name = "<cedar_policy::ffi::is_authorized::ResidualResponse as std::convert::TryFrom<cedar_policy::api::PartialResponse>>::try_from"
+    f = facts.fns.get(name)
+    n = 0
+    if f is None:
+        if chk.secondary:
+            return
+        chk.lost(rule, "TryFrom<PartialResponse> for ffi::ResidualResponse")
+        return
+    chk.functions.add(f.name)
+    L = shape.Labels(f, None, None, call_labels=lambda c, t: (["A:" + c.split("::")[-1]] if c.startswith("cedar_policy::api::PartialResponse::") else None))
+    adt = [a for k, a in facts.adts.items() if k.endswith("ffi::is_authorized::ResidualResponse")]
+    aggs = [s_ for _, s_ in f.stmts() if s_[0] == "a" and s_[2][0] == "agg" and s_[2][1][0] == "adt" and str(s_[2][1][1]).endswith("ffi::is_authorized::ResidualResponse")]
+    if len(aggs) != 1 or not adt:
+        chk.lost(rule, "the ResidualResponse literal in try_from", "found %d" % len(aggs))
+        return
+    names = [fl[0] for fl in adt[0]["variants"][0]["fields"]]
+    for i, o in enumerate(aggs[0][2][2]):
+        nm = names[i] if i < len(names) else str(i)
+        labs = {x[2:] for x in L.operand_labels(o) if x.startswith("A:")}
+        want = RESIDUAL_FIELDS.get(nm)
+        if want is None:
+            chk.ob(rule, "field:" + nm, False, "field %s of ResidualResponse is not in the reviewed table" % nm, where=f.where(aggs[0][3]), fn=f.name)
+            continue
+        n += 1
+        chk.ob(rule, "field:" + nm, labs == {want}, "ResidualResponse.%s is filled from PartialResponse::%s (must be exactly %s)" % (nm, sorted(labs), want),
+               where=f.where(aggs[0][3]), fn=f.name, key="%s:field:%s" % (rule, nm), sample={"field": nm, "from": sorted(labs)})
+    # FFI getters read their namesake field
+    for g_name in ("decision", "satisfied", "errored", "may_be_determining", "must_be_determining"):
+        g = facts.fns.get("cedar_policy::ffi::is_authorized::ResidualResponse::" + g_name)
+        if g is None:
+            chk.lost(rule, "ResidualResponse::" + g_name)
+            continue
+        fields = set()
+        for b, blk in enumerate(g.blocks):
+            for s_ in blk["st"]:
+                if s_[0] == "a":
+                    for p_ in shape._rv_places(s_[2]):
+                        if p_[0] == 1:
+                            for e in p_[1:]:
+                                if isinstance(e, list) and e[0] == "f":
+                                    fields.add(e[2])
+        n += 1
+        chk.ob(rule, "getter:" + g_name, fields == {g_name}, "ResidualResponse::%s() reads field(s) %s" % (g_name, sorted(fields)), where=g.where(), fn=g.name, key="%s:getter:%s" % (rule, g_name))
+    # API accessors delegate to the core accessor of the same name
+    for d in DELEGATES:
+        g = facts.fns.get("cedar_policy::api::PartialResponse::" + d)
+        if g is None:
+            chk.lost(rule, "api::PartialResponse::" + d)
+            continue
+        core = sorted({callee(t).split("::")[-1] for _, t in g.calls() if callee(t).startswith("cedar_policy_core::authorizer::") and "PartialResponse::" in callee(t)})
+        n += 1
+        chk.ob(rule, "delegate:" + d, core == [d], "api PartialResponse::%s delegates to core PartialResponse::%s" % (d, core), where=g.where(), fn=g.name, key="%s:delegate:%s" % (rule, d))
+    chk.floor(rule, "residual-response obligations", n, 19)
+
+
 def run(chk, facts, tier):
     facts.load_crate("cedar_policy_core.lib")
     facts.load_crate("cedar_policy.lib")
@@ -422,6 +487,7 @@ def run(chk, facts, tier):
     entry_sibling(chk, facts)
     cache_ownership(chk, facts)
     response_hom(chk, facts)
+    residual_hom(chk, facts)
     cli_table(chk, facts)
     validate_flow(chk, facts)
     wrappers_and_format(chk, facts)
